@@ -2602,10 +2602,7 @@ class Parameters:
         # would need to handle the params() cache as well
         # (which is tricky but important for startup speed).
         cls = self_.cls
-        type.__setattr__(cls, param_name, param_obj)
-        ParameterizedMetaclass._initialize_parameter(cls, param_name, param_obj)
-        # delete cached params()
-        _clear_params_cache(cls)
+        ParameterizedMetaclass._install_parameter(cls, param_name, param_obj)
 
     # PARAM3_DEPRECATION
     @_deprecated(extra_msg="Use instead `.param.add_parameter`", warning_cat=_ParamFutureWarning)
@@ -4702,14 +4699,33 @@ class ParameterizedMetaclass(type):
             else:
                 mcs.__dict__[attribute_name].__set__(None,value)
 
+        elif isinstance(value,Parameter):
+            # Same as add_parameter: the Parameter has to learn its
+            # name and the cached namespaces have to be rebuilt
+            mcs._install_parameter(attribute_name,value)
         else:
             type.__setattr__(mcs,attribute_name,value)
 
-            if isinstance(value,Parameter):
-                # Same as add_parameter: the Parameter has to learn its
-                # name and the cached namespaces have to be rebuilt
-                mcs._initialize_parameter(attribute_name,value)
-                _clear_params_cache(mcs)
+    def _install_parameter(mcs, param_name, param_obj):
+        """
+        Make param_obj the Parameter param_name of this class; if it cannot
+        be initialised here (e.g. its default violates the constraints it
+        inherits) the class is left as it was.
+        """
+        missing = object()
+        previous = mcs.__dict__.get(param_name, missing)
+        type.__setattr__(mcs, param_name, param_obj)
+        try:
+            mcs._initialize_parameter(param_name, param_obj)
+        except Exception:
+            if previous is missing:
+                type.__delattr__(mcs, param_name)
+            else:
+                type.__setattr__(mcs, param_name, previous)
+            raise
+        finally:
+            # delete cached params()
+            _clear_params_cache(mcs)
 
     def __param_inheritance(mcs, param_name, param):
         """
